@@ -22,9 +22,9 @@ print("tools:", json.dumps(tools))
 PY
 (cd harness && go build ./... && go vet ./vdrv ./noderun 2>&1 | tail -5)
 # pre-build every registered check's test binary so the first ./check is fast
-for id in $(python3 -c "import json;print(' '.join(k.lower() for k in json.load(open('checks.json'))))"); do
+for id in $(ls checks.d | sed 's/\.json$//' | tr 'A-Z' 'a-z'); do
   extra=""
-  if python3 -c "import json,sys;sys.exit(0 if json.load(open('checks.json'))['${id^^}'].get('race') else 1)"; then extra="-race"; fi
+  if python3 -c "import json,sys;sys.exit(0 if json.load(open('checks.d/${id^^}.json')).get('race') else 1)"; then extra="-race"; fi
   (cd harness && go test -c $extra -tags verif -o ../.bin/$id.test ./props/$id) || echo "setup: warm build of $id failed (the check itself will report it)"
 done
 exit 0
